@@ -21,7 +21,14 @@ ZERO_WIDTH_CHILD = 0
 # 1 = Rule(align="right") repeats `characters` (width - title - 1) TIMES, so multi-cell `characters` push the title out;
 #     0 = the repair in pending_fixes/C08-rule-right-multicell.diff is applied.
 RULE_RIGHT_REPEAT = 0
-VARIANT = ZERO_WIDTH_CHILD + 2 * RULE_RIGHT_REPEAT
+# 1 = Text.rstrip_end compares the CHARACTER count with the cell width, so a rule / panel title with zero-width characters
+#     that exactly fills its width loses trailing blanks (finding rule-rstrip-zero-width);
+#     0 = the repair in pending_fixes/C08-rstrip-end-counts-cells.diff is applied.
+RSTRIP_COUNTS_CHARS = 1
+# 1 = Columns(width=w) computes max_width // (w + padding) columns, possibly 0, and raises ZeroDivisionError (F11);
+#     0 = the repair in pending_fixes/C14-columns-width-at-least-one-column.diff (`max(1, …)`) is applied.
+COLUMNS_ZERO_COUNT = 1
+VARIANT = ZERO_WIDTH_CHILD + 2 * RULE_RIGHT_REPEAT + 4 * RSTRIP_COUNTS_CHARS + 8 * COLUMNS_ZERO_COUNT
 
 GUIDE_CHARS = set(" |+-`│├─└┃┣━┗║╠═╚")
 BAR_CHARS = set(" █▐▕▏▎▍▌▋▊▉")
@@ -468,8 +475,11 @@ def run_columns(ctx, env, rng, n_cases):
                 ans = "err:" + type(ex).__name__
                 d = unpack(pad)
                 finding = None
-                if isinstance(ex, ZeroDivisionError) and width is not None and (mw // (width + max(d[1], d[3])) == 0 if width + max(d[1], d[3]) else True):
-                    finding = "columns-width-zero-division"
+                if isinstance(ex, ZeroDivisionError) and width is not None:
+                    if width + max(d[1], d[3]) == 0:
+                        finding = "columns-width-plus-padding-zero"  # `max_width // 0` itself
+                    elif mw // (width + max(d[1], d[3])) == 0:
+                        finding = "columns-width-zero-division"  # F11: zero columns, then `item_count % 0`
                 ctx.check(False, "Columns", inp, f"{type(ex).__name__} escapes from rendering", finding=finding)
             else:
                 if not out:
@@ -490,7 +500,7 @@ def run_columns(ctx, env, rng, n_cases):
                     grid = [[ident(col._cells[r]) for col in table.columns] for r in range(len(table.rows))]
                     ans = str(len(table.columns)) + "|" + ";".join(",".join("-" if x is None else str(x) for x in r) for r in grid)
             d = [pad] if isinstance(pad, int) else list(pad)
-            ctx.case("frames_columns", [f"{len(d)}:" + ",".join(map(str, d)), "-" if width is None else width, enc_bool(o["equal"]), enc_bool(o["column_first"]),
+            ctx.case("frames_columns", [VARIANT, f"{len(d)}:" + ",".join(map(str, d)), "-" if width is None else width, enc_bool(o["equal"]), enc_bool(o["column_first"]),
                                         enc_bool(o["right_to_left"]), ",".join(map(str, measured)), mw], ans,
                      shape=("err" if ans.startswith("err") else f"cf{int(o['column_first'])}rtl{int(o['right_to_left'])}"), sample=f"Columns({plain!r}, {o!r}) max_width={mw}")
             if grid is None:
@@ -685,10 +695,14 @@ def run(ctx):
 
         g = RenderGroup(ProgressBar(width=5, completed=50), Text("ccc dd"))
         t = "".join(s.text for s in wd.console.render(g, wd.console.options.update(width=9)))
+        bar_alone = "".join(s.text for s in wd.console.render(ProgressBar(width=5, completed=50), wd.console.options.update(width=9)))
         first = t.split("\n")[0]
+        # narrow classifier: the bar alone fits its width and has no line feed, and the over-wide line is exactly that bar
+        # continued by the text of the group's next renderable
+        narrow = "\n" not in bar_alone and cell_len(bar_alone) <= 5 and first == bar_alone + "ccc dd"
         ctx.check(cell_len(first) <= 9, "RenderGroup(ProgressBar, Text)", (repr(env), "RenderGroup(ProgressBar(width=5, completed=50), Text('ccc dd'))", 9),
                   f"the line holding the bar is {cell_len(first)} cells wide in a width of 9: {first!r}",
-                  finding="progressbar-no-newline" if first.endswith("ccc dd") and "\n" not in "".join(s.text for s in wd.console.render(ProgressBar(width=5))) else None)
+                  finding="progressbar-no-newline" if narrow else None)
         run_columns(ctx, env, rng, 60 if quick else 700)
     ctx.rule = (
         "per console environment (%d of them: widths %s, ascii_only / legacy_windows / no_color / colour systems / safe_box): every one of %d leaf children "
